@@ -25,8 +25,12 @@ TRUSTED = ["Coq 8.16.1 kernel + vm_compute (primitive floats: bit-exact IEEE bin
 ASSUMPTIONS = ["the worker count is whatever num_cpus::get() returns in the process (1..16 reachable here through the affinity mask; cgroup quotas are not exercised)",
                "a value model cannot exhibit a data race: excluded by thread::scope's borrow checking (trusted)",
                "the sampled (length, k, data) triples are where model and code were compared bit for bit; the theorems are about the model"]
-UNPROVED = ["accuracy 'up to reassociation' on arbitrary data: searched against the exact rational value with the standard gamma_(n+t) bound, not proved",
-            "absence of data races / torn reads: Rust's guarantee for safe code"]
+UNPROVED = ["accuracy 'up to reassociation' on arbitrary data is proved in the standard rounding model (pardot_forward_error, pardot_vs_dot_reassociation, "
+            "sched_forward_error: |result - exact dot| <= gamma-type bound for ANY operations with relative error u); the binary64 instance of that "
+            "bound (no overflow/underflow side conditions discharged) is searched against the exact rational value, not proved",
+            "absence of data races / torn reads in the machine code: Rust's guarantee for safe code. The interleaving semantics of coq/Model/ParSched.v and "
+            "ParSchedFine.v (threads as transition systems: per-iteration load/load/multiply/add steps, join in spawn order) is a model of the source's "
+            "synchronisation structure, not of the memory model"]
 
 MANIFEST = dict(
     text=("Theorems about the Gallina model of Vector<f64>::dot_f64 (coq/Model/ParDot.v), for every length, every worker count t >= 1 "
@@ -35,12 +39,18 @@ MANIFEST = dict(
           "is the partial dots of the slices added from 0 in spawn order: a reassociation fixed by (len, t)), pardot_exact (over any ring the chunked sum equals the "
           "sequential dot), schedule_independent (for any arithmetic, floats included, and every completion order of the workers the "
           "joined result is the same expression, hence bit-identical), pardot_exact_float (IEEE binary64 via Flocq: on integer-valued "
-          "data with sum |v_i w_i| < 2^53 the result is bit-identical to the sequential dot, for every worker count). Tie: the executor is re-run under taskset for every CPU count "
+          "data with sum |v_i w_i| < 2^53 the result is bit-identical to the sequential dot, for every worker count). Scheduling is modelled explicitly "
+          "(coq/Model/ParSched.v: one transition per worker statement, ParSchedFine.v: four transitions per loop iteration): every maximal execution under every "
+          "scheduler has the same length and the same final state (sched_deterministic, sched_terminates, sched_no_deadlock, sched_no_panic, sched_diamond, "
+          "sched_fine_*), the fine semantics refines the statement-level one, every completion order is realised (sched_realises_every_order), and the variant "
+          "that adds the partial sums in completion order into a shared accumulator is REFUTED for floats with a concrete witness (completion_order_refuted) while "
+          "shown exact over rings (shared_exact): the join-in-spawn-order of the source is what makes the float result schedule independent. Forward error of the "
+          "chunked sum in the standard rounding model: pardot_forward_error(_tight), pardot_vs_dot_reassociation, sched_forward_error. Tie: the executor is re-run under taskset for every CPU count "
           "1..16, reports num_cpus::get() in-process, and every result for every length 0..200 (plus longer ones) is compared "
           "bitwise with vm_compute of the float instance of the same model for that worker count, with the sequential dot, across "
           "repetitions, and (oracle) with an exact rational reference."),
-    note=("Scheduling itself (races, torn reads) is excluded by Rust's scoped-thread borrowing rules, not proved; the reassociation "
-          "error bound on arbitrary data is searched against an exact rational reference, not a theorem; pardot_exact_float rests on the "
+    note=("Data races / torn reads at the machine level are excluded by Rust's scoped-thread borrowing rules, not proved (the interleaving model has atomic "
+          "statements); the reassociation error bound is a theorem in the standard rounding model and a search against an exact rational reference at binary64; pardot_exact_float rests on the "
           "primitive-float specification axioms of Coq's standard library (FloatAxioms) and the classical axioms of the Reals (Flocq)."),
     technique="Coq proof (lists, abstract ring, permutations) + bitwise model/implementation differential execution under every CPU affinity",
     design="7 (C16)")
